@@ -220,6 +220,10 @@ func (t *tsGen) next(r *rng) uint32 {
 		} else {
 			t.cur += uint32(r.intn(3))
 		}
+	case 5: // anywhere inside a 45 s window: back and forth across the 32 s reach of the compression reference
+		return t.cur + uint32(r.intn(46))
+	case 6: // running backwards
+		t.cur -= uint32(r.intn(6))
 	case 4:
 		switch r.intn(6) {
 		case 0:
@@ -403,14 +407,14 @@ func (r *rng) devSetup(idx byte, nfields int) ([]proto.Message, []devField) {
 }
 
 type encCfg struct {
-	bigEndian   bool
-	headerOpt   encoder.HeaderOption
-	localTypes  byte
-	protoVer    proto.Version
-	preserve    bool
-	bufSize     int
-	headerSize  byte
-	profileVer  uint16
+	bigEndian  bool
+	headerOpt  encoder.HeaderOption
+	localTypes byte
+	protoVer   proto.Version
+	preserve   bool
+	bufSize    int
+	headerSize byte
+	profileVer uint16
 }
 
 func (r *rng) encCfg() encCfg {
